@@ -741,6 +741,22 @@ func diaCase(g *hc.Gen, o *hc.Out, dir string) {
 			}
 		}
 	}
+	withEnd := g.Intn(4) != 0
+	if d.lb == text.CR {
+		withEnd = false // a CR-terminated file does not load (law roundtrip:*:cr_ending_line_break)
+	}
+	importEnc := d.enc
+	if d.enc != text.SJIS && g.Intn(2) == 0 {
+		importEnc = text.AUTO
+	}
+	diaRun(o, dir, t, d, withEnd, importEnc, "")
+}
+
+// diaRun: write the file with dialect d (the real encoder, the ending line break in d's own line
+// break and encoding), UPDATE + COMMIT it through a processor with DEFAULT export settings, and
+// compare the bytes with what the same dialect would write for the updated table
+func diaRun(o *hc.Out, dir string, t *table, d opts, withEnd bool, importEnc text.Encoding, tag string) {
+	f := d.format
 	name := fmtName(f)
 	body, err := realEncode(t, d)
 	must(err)
@@ -752,20 +768,12 @@ func diaCase(g *hc.Gen, o *hc.Out, dir string) {
 		end, err = text.Encode([]byte(d.lb.Value()), plain)
 		must(err)
 	}
-	withEnd := g.Intn(4) != 0
-	if d.lb == text.CR {
-		withEnd = false // a CR-terminated file does not load (law roundtrip:*:cr_ending_line_break)
-	}
 	orig := append([]byte{}, body...)
 	if withEnd {
 		orig = append(orig, end...)
 	}
 	fname := "dia" + fmtExt(f)
 	must(os.WriteFile(filepath.Join(dir, fname), orig, 0o644))
-	importEnc := d.enc
-	if d.enc != text.SJIS && g.Intn(2) == 0 && (d.enc != text.UTF8 || true) {
-		importEnc = text.AUTO
-	}
 	// the update, by a processor with DEFAULT export settings
 	key := "c1"
 	upd := "c2"
@@ -779,6 +787,9 @@ func diaCase(g *hc.Gen, o *hc.Out, dir string) {
 	o.Count("dia:" + name + ":" + encName(d.enc) + ":" + lbName(d.lb))
 	replay := func(extra map[string]interface{}) map[string]interface{} {
 		m := map[string]interface{}{"format": name, "dialect": d.sig(), "import_encoding": encName(importEnc), "original_hex": hex.EncodeToString(orig)}
+		if tag != "" {
+			m["corpus"] = tag
+		}
 		for k, v := range extra {
 			m[k] = v
 		}
@@ -798,15 +809,25 @@ func diaCase(g *hc.Gen, o *hc.Out, dir string) {
 	want := append(append([]byte{}, wantBody...), end...)
 	if bytes.Equal(after, want) {
 		o.Count("dia:" + name + ":kept")
+		if tag != "" {
+			o.Count("corpus:" + tag + ":kept")
+		}
 		return
+	}
+	if tag != "" {
+		o.Count("corpus:" + tag + ":changed")
 	}
 	extra := map[string]interface{}{"after_hex": hex.EncodeToString(after), "want_hex": hex.EncodeToString(want)}
 	switch {
 	case bytes.HasPrefix(after, wantBody):
 		// only the ending line break differs: it is written from the session's --line-break flag, as raw bytes
 		tail := after[len(wantBody):]
-		if utf16Family(d.enc) {
+		if utf16Family(d.enc) && (bytes.Equal(tail, []byte(d.lb.Value())) || bytes.Equal(tail, []byte("\n"))) && !bytes.Equal(tail, end) {
+			// the line break as raw bytes inside a UTF-16 file
 			lawFail(o, "dialect:"+name+":ending_line_break_not_transcoded", replay(extra))
+			if !bytes.Equal(tail, []byte(d.lb.Value())) {
+				lawFail(o, "dialect:"+name+":ending_line_break_kind", replay(extra))
+			}
 		} else if !bytes.Equal(tail, end) {
 			lawFail(o, "dialect:"+name+":ending_line_break_kind", replay(extra))
 		}
@@ -857,6 +878,7 @@ func main() {
 		defer palProc.Close()
 		quoteLB = probeQuoteLB()
 		o.Count("probe:writer_quotes_line_breaks:" + b01(quoteLB))
+		corpus(o, scratch)
 		for i := 0; i < n; i++ {
 			switch k := i % 10; {
 			case k < 3:
